@@ -1,7 +1,7 @@
 SPECIFICATION TraceSpec
 CONSTANTS
   Threads = {"t1","t2","t3","t4","t5","t6","t7","t8","t9","t10","t11","t12","t13","t14","t15","t16"}
-  Valid = {"p1", "p2", "q.liquid"}
+  Valid = {"p1", "p2", "q.liquid", "node", "leaf"}
   Broken = {"b1"}
   Absent = {"nosuch", "nosuch.liquid", "q", "b1.liquid"}
   MaxCalls = 0
